@@ -103,7 +103,7 @@ def run(ctx):
         traces.append(_observe_dbal(n, budget, rnd.randrange(1 << 30)))
     # the scoring entry point: ONE scorer object used for several score() calls (different numbers of posterior samples, several
     # chunks of plates per call) - every chunk's triples must satisfy the clauses, whatever the object did before
-    for _ in range(4 if ctx.quick else 40):
+    for _ in range(16 if ctx.quick else 120):
         traces += _observe_scorer_session(rnd)
     _validate(ctx, tlc, traces)
     ctx.assumptions += ["TLC integers are 32 bit: the register machine is explored for k=3 up to n=1500; rank / successor relations with plain "
@@ -145,7 +145,10 @@ def _observe_scorer_session(rnd):
     from harness.drivers.c05 import ArrTheta, Dense
     from batchie.core import ThetaHolder
     from batchie.data import Screen
-    budget = rnd.choice([3, 10, 20, 35, 84, 100, 400, 5000])
+    ns = [rnd.randint(3, 14) for _ in range(rnd.randint(2, 4))]
+    # budgets around the number of triples of one of the calls: exactly covering, just covering, just not, far below, far above
+    tot = comb(rnd.choice(ns), 3)
+    budget = max(1, rnd.choice([tot, tot + 1, tot - 1, 2 * tot - 1, tot // 3, 3, 5000]))
     scorer = G.GaussianDBALScorer(max_chunk=rnd.choice([1, 2, 3, 50]), max_triples=budget)
     sizes = [rnd.randint(1, 3) for _ in range(rnd.randint(1, 8))]
     rows_pl = [p for p, e in enumerate(sizes) for _ in range(e)]
@@ -175,7 +178,7 @@ def _observe_scorer_session(rnd):
     G.get_combination_at_sorted_index, G.dbal_fast_gauss_scoring_vectorized = rec, fast
     try:
         rng = np.random.default_rng(rnd.randrange(1 << 30))
-        for n in [rnd.randint(3, 14) for _ in range(rnd.randint(2, 4))]:
+        for n in ns:
             h = ThetaHolder(n_thetas=n)
             for _ in range(n):
                 h.add_theta(ArrTheta(rng.normal(size=N), np.exp(rng.normal(size=N))))
